@@ -1,8 +1,8 @@
 #!/bin/sh
 # usage: tools/matrix.sh [seed dirs...]  -- runs every quick check against each seeded change in a scratch worktree of /repo
 # (never touches /repo itself) from a snapshot of /verif (so editing /verif meanwhile is harmless); writes seeded/matrix.txt
-SNAP=/tmp/verif_matrix_snap
-WT=/tmp/verif_matrix_wt
+SNAP=/tmp/verif_matrix_snap_$$
+WT=/tmp/verif_matrix_wt_$$
 rm -rf $SNAP; mkdir -p $SNAP
 rsync -a --exclude .git --exclude replays --exclude evidence /verif/ $SNAP/
 cd $SNAP
